@@ -90,3 +90,12 @@ pub fn extend_query(
     )?;
     Ok((query, params.len()))
 }
+
+/// The two connection URIs `PostgresStoreOptions::new` derives (`uri`, `admin_uri`): crate-private
+/// fields that the redacting `Debug` impl does not print.
+#[cfg(feature = "postgres")]
+pub fn postgres_options_uris(
+    opts: &crate::backend::postgres::PostgresStoreOptions,
+) -> (String, String) {
+    (opts.uri.clone(), opts.admin_uri.clone())
+}
